@@ -35,6 +35,8 @@ def gen_rule(rng, items, idgen, depth=1, p_id=0.4):
         t = rng.random()
         if t < 0.8:
             r["default"] = [rng.choice(its)]
+            if k == "ccAny" and len(its) >= 3 and rng.random() < 0.25:
+                r["default"] = rng.sample(its, 2)
         elif t < 0.9:
             others = [i for i in items if i not in its]
             if others:
